@@ -131,10 +131,10 @@ Qed.
 Lemma zlen_skipn : forall (A : Type) (l : list A) n, (n <= length l)%nat -> zlen (skipn n l) = zlen l - Z.of_nat n.
 Proof. intros. unfold zlen. rewrite skipn_length. lia. Qed.
 
-Lemma timer_dich : forall fdl ppl es, QI fdl ppl es -> fire_timer es = es \/ phi (fire_timer es) < phi es.
+Lemma timer_strict : forall fdl ppl e s g t, QI fdl ppl (e, s) -> live_gen s = Some g -> timer_due e s g (dn_now e) = Some t ->
+  phi (e, cstep s (CTimer g (dn_backoff e) (dbestl e s g))) < phi (e, s).
 Proof.
-  intros fdl ppl [e s] Q. unfold fire_timer. destruct (live_gen s) as [g|] eqn:Eg; [|left; reflexivity].
-  destruct (timer_due e s g (dn_now e)) as [t|] eqn:Et; [|left; reflexivity]. right.
+  intros fdl ppl e s g t Q Eg Et.
   unfold timer_due in Et. destruct (w_stopped (wget g s) || is_blocked e g) eqn:Es; [discriminate|].
   apply orb_false_iff in Es. destruct Es as [Es _]. destruct (w_timer (wget g s)) as [tm|] eqn:Etm; [|discriminate].
   pose proof (hi_c _ _ _ (q_hi _ _ _ Q)) as Ci. cbn [snd] in Ci.
@@ -151,6 +151,12 @@ Proof.
   specialize (L (proj1 (ci_lim _ _ _ Ci))).
   rewrite !phi_eq. unfold PA, PB, live_gen, wget. rewrite A, C, D, F. cprj. fold (live_gen s). rewrite Eg.
   rewrite aget_aput, Z.eqb_refl. fold (wget g s). fold w. lia.
+Qed.
+
+Lemma timer_dich : forall fdl ppl es, QI fdl ppl es -> fire_timer es = es \/ phi (fire_timer es) < phi es.
+Proof.
+  intros fdl ppl [e s] Q. unfold fire_timer. destruct (live_gen s) as [g|] eqn:Eg; [|left; reflexivity].
+  destruct (timer_due e s g (dn_now e)) as [t|] eqn:Et; [|left; reflexivity]. right. eapply timer_strict; eauto.
 Qed.
 
 Lemma QI_inv : forall fdl ppl e s, QI fdl ppl (e, s) -> Inv (c_lim s).
@@ -411,4 +417,22 @@ Proof.
   intros fdl ppl es Q. unfold drain.
   destruct (rounds_quiet fdl ppl (Z.to_nat (phi es)) es Q) as [E Q1]; [pose proof (phi_nonneg es); lia|].
   split; [|exact Q1]. destruct (round_dich fdl ppl _ Q1) as [_ [_ F]]. apply F, E.
+Qed.
+
+(* ---- moves that are enabled do lower the bound ---------------------------------------------------- *)
+Lemma deliver_strict : forall fdl ppl e s c r, QI fdl ppl (e, s) -> cget c s = Some r -> cr_phase r = PSending ->
+  is_blocked e (cr_gen r) = false -> deliver_one (e, s) c <> (e, s).
+Proof.
+  intros fdl ppl e s c r Q Hc Hp Hb E. unfold deliver_one in E. rewrite Hc, Hp, Hb in E. destruct (dn_park e) eqn:Ek.
+  - inversion E as [E1]. apply (f_equal dn_park) in E1. cbn in E1. congruence.
+  - assert (X : cget c (cstep s (CDeliver c (okconn e (cr_fdir r)) (rank_for e c))) = cget c s) by (inversion E as [E1]; rewrite E1; exact E1 || congruence).
+    cbn [cstep] in X. rewrite Hc, Hp in X. rewrite cget_cput, Z.eqb_refl in X. inversion X as [X1].
+    apply (f_equal cr_phase) in X1. cbn in X1. congruence.
+Qed.
+
+Lemma leave_strict : forall fdl ppl e s c r k, QI fdl ppl (e, s) -> cget c s = Some r -> cr_phase r = PWaiting ->
+  resp_of c (w_resps (wget (cr_gen r) s)) = Some k -> phi (leave_one (e, s) c) < phi (e, s).
+Proof.
+  intros fdl ppl e s c r k Q Hc Hp Hr. unfold leave_one. cbn [cstep]. rewrite Hc, Hp, Hr.
+  destruct k; eapply do_leave_phi; eauto; congruence.
 Qed.
